@@ -78,4 +78,52 @@ Section PassLemmas.
     destruct k; simpl; try congruence; rewrite ?mRX_2pi, ?mRY_2pi, ?mRZ_2pi;
       unfold app1, mneg; simpl; destruct (bit x q); ring.
   Qed.
+
+  (* ---- what "the angle is a multiple of the period" buys, for all gates with any controls ---- *)
+  (* cis a = 1  (a = 0 mod 4*pi): the rotation is the identity *)
+  Lemma rot_mat_cis1 k a : cis a = 1 -> mat_of S (rot_g1 k a) = mid S.
+  Proof.
+    intro H. assert (H' : cis (aopp a) = (1 : K S)) by (rewrite <- cis_conj, H; apply kconj_1).
+    destruct k; simpl.
+    - unfold mRX, mid, cosh_, misinh. rewrite H, H'. apply mat2_eq; simpl; try ring;
+        transitivity (khalf + khalf : K S); try ring; apply k_half.
+    - unfold mRY, mid, sinh_, cosh_, misinh. rewrite H, H'. apply mat2_eq; simpl; try ring;
+        transitivity (khalf + khalf : K S); try ring; apply k_half.
+    - unfold mRZ, mid. rewrite H, H'. reflexivity.
+    - unfold mPHASE, mid. rewrite H. apply mat2_eq; simpl; ring.
+  Qed.
+
+  Theorem rot_cis1_identity k a q cs psi : cis a = 1 -> den_gate S (rot_gate k a q cs) psi = psi.
+  Proof.
+    intro H. unfold den_gate, rot_gate; simpl. rewrite rot_mat_cis1 by exact H.
+    rewrite (ctrl_ext S cs _ (fun s => s)); [apply ctrl_id | intro s; apply app1_id].
+  Qed.
+
+  (* cis a = -1 (a = 2*pi mod 4*pi): minus the identity on the controlled branch *)
+  Lemma rot_mat_cism1 k a : k <> RotP -> cis a = - (1) -> mat_of S (rot_g1 k a) = mneg.
+  Proof.
+    intros Hk H. assert (H' : cis (aopp a) = - (1 : K S)) by (rewrite <- cis_conj, H, kconj_opp, kconj_1; reflexivity).
+    destruct k; simpl; try congruence.
+    - unfold mRX, mneg, cosh_, misinh. rewrite H, H'. apply mat2_eq; simpl; try ring;
+        transitivity (- (khalf + khalf) : K S); try ring; rewrite k_half; ring.
+    - unfold mRY, mneg, sinh_, cosh_, misinh. rewrite H, H'. apply mat2_eq; simpl; try ring;
+        transitivity (- (khalf + khalf) : K S); try ring; rewrite k_half; ring.
+    - unfold mRZ, mneg. rewrite H, H'. reflexivity.
+  Qed.
+
+  Theorem rot_cism1_sign k a q cs psi x :
+    k <> RotP -> cis a = - (1) ->
+    den_gate S (rot_gate k a q cs) psi x = if allset x cs then - psi x else psi x.
+  Proof.
+    intros Hk H. unfold den_gate, rot_gate, ctrl; simpl. destruct (allset x cs); [|reflexivity].
+    rewrite rot_mat_cism1 by assumption. unfold app1, mneg; simpl. destruct (bit x q); ring.
+  Qed.
+
+  (* PHASE has period 2*pi exactly: cis a = -1 gives the identity as well *)
+  Theorem phase_cism1_identity a q cs psi : cis a = - (1) -> den_gate S (rot_gate RotP a q cs) psi = psi.
+  Proof.
+    intro H. unfold den_gate, rot_gate; simpl.
+    assert (E : mPHASE S a = mid S) by (unfold mPHASE, mid; rewrite H; apply mat2_eq; simpl; ring).
+    rewrite E. rewrite (ctrl_ext S cs _ (fun s => s)); [apply ctrl_id | intro s; apply app1_id].
+  Qed.
 End PassLemmas.
